@@ -36,6 +36,13 @@ BUILT: dict[str, dict[str, str]] = {
         note="In-memory storage; weakest reading of ambiguous docstrings (see evidence assumptions).",
         ref="DESIGN.md 3/C16",
     ),
+    "C17": dict(
+        technique="property-based testing (Hypothesis): generated ask/suggest/tell/enqueue/add histories with out-of-order finishes; incremental calculators compared with a from-scratch computation and an independent definition; partition invariants for the group decomposition",
+        category="exploration",
+        text="Generated-history search on three backends with several calculator objects started at different times; every calculate() is compared with a fresh computation over the study's current trials and with an independent six-line definition, plus monotonicity and partition invariants. Absence of counterexamples in the explored region only.",
+        note="Trusts the Study API to report the trials (C01/C20 cover that); one study per calculator.",
+        ref="DESIGN.md 3/C17",
+    ),
 }
 
 NOT_YET: dict[str, str] = {}
